@@ -545,6 +545,32 @@ class Rope:
                 raise Unsupported('upper() on abstract content')
         return norm(self.kind, out)
 
+    def _just(self, width, fill, left):
+        dflt = ' ' if self.kind == 't' else b' '
+        fill = dflt if fill is None else fill
+        if not isinstance(fill, type(dflt)) or len(fill) != 1:
+            raise TypeError('the fill character must be exactly one character long')
+        n = self.length()
+        pad = core.s_max(width - n, 0)
+        if isinstance(pad, int) and pad == 0:
+            return self
+        f = mk(self.kind, [Fill(fill, pad)])
+        return (self + f) if left else (f + self)
+
+    def ljust(self, width, fillchar=None):
+        return self._just(width, fillchar, True)
+
+    def rjust(self, width, fillchar=None):
+        return self._just(width, fillchar, False)
+
+    def __getattr__(self, name):
+        # any other str/bytes method on abstract content: not expressible -> the obligation is inconclusive (never a pseudo-violation)
+        if name.startswith('__'):
+            raise AttributeError(name)
+        if hasattr('' if self.kind == 't' else b'', name):
+            raise Unsupported('%s.%s on abstract content' % ('str' if self.kind == 't' else 'bytes', name))
+        raise AttributeError(name)
+
     def startswith(self, prefix):
         n = rlen(prefix)
         return self[0:n] == prefix
